@@ -1,3 +1,45 @@
+/-
+  Refinement MODULO CALLEES AND THE READER: the generated IR (SMGo/Gen/CTIRProg.lean) of
+    * `fn_96` sm2.DerivePublic  vs  `Model.SM2.derivePublic`   (`ir_derivePublic_eq_model`, body level `derive_body`),
+    * `fn_97` sm2.GenerateKey   vs  `Model.SM2.generateKey`    (`ir_generateKey_eq_model`, `…_len32`, `…_script`,
+      `ir_generateKey_nil`; body level `gen_body`, `gen_body_nil`; the rejection loop `gk_loop`)
+  of /repo/sm2/sm2.go (model: SMGo/Model/SM2Proto.lean).
+
+  CALLEES.
+  * internal.ScalarBaseMult (87) and (*SM2Point).Bytes (91) are HYPOTHESES (`SbmAt`, `BytesSpec`; `Computes` of
+    CTIRRefineField with fuels `Fsbm`, `Fbytes`; `CalleeFails` of CTIRRefineComb where the model panics); points are
+    encoded by `CTIRRefinePointA.ptV enc`, the nil point of the error path is `CTIRRefineComb.nilPointV`.
+  * sm2.TestPrivateKey (1) and utils.ConstantTimeCmp (0) are the PROVED refinements of CTIRRefineCurve
+    (`test_body_ok`, `test_body_stuck` through `EvIn.call` / `Stuck.call`), whence the hypothesis
+    `G 5 = bytesV (Model.SM2.nMinus1Bytes X)` on the globals (true for the generated `globals` and every context with
+    `X.n = param_N`: `globals_nMinus1_ctx`).
+  * io.ReadFull is the external 11 `[reader, 32, position] ↦ [buffer, n, err, next position]`; hypothesis `ReaderSpec`
+    relates it to `Model.SM2.readFull` on a family of scripts `sc p` (script at reader position `p`).  The hypothesis
+    is satisfiable: `readerOracle base s` (answers external 11 from the script `s`) satisfies it with
+    `sc = scriptAt s` (`readerOracle_spec`).  The reader handle is `.int r` with `r ≠ 0` (`.int 0` = nil reader).
+
+  FUELS (explicit, no termination hypothesis): DerivePublic `fuelDerive Fsbm Fbytes = Fsbm + Fbytes + 40`;
+  GenerateKey `fuelGen n Fsbm Fbytes = n·640 + Fsbm + Fbytes + 62` with `n = avail (sc 0) / 32 + 1` the model's bound on
+  the number of candidates (one round of the loop needs `fuelTest + 20 = 612 ≤ 636`); nil reader: 20.
+
+  Model/IR DISAGREEMENTS: NONE found.
+  * The model's `genKeyLoop` is fuel-indexed and answers `.err` when its fuel runs out, the Go loop is unbounded.
+    With the model's own bound `avail sc / 32 + 1` this never happens: every successful `readFull … 32` lowers
+    `avail` by exactly 32 (`readFull_avail`), so the invariant `avail (sc p) < 32 · fuel` is maintained and the
+    case `fuel = 0` is unreachable (`gk_loop`).  No hypothesis is needed for it.
+  * On the error paths the FIRST result of GenerateKey (`priv`) is not nil in the IR (nor in Go: named results):
+    it is the 32-byte buffer as the failing ReadFull left it, resp. the accepted candidate; the model's `.err`
+    carries no value, so the theorem states `∃ v, … = .ret [v, .arr [], .arr [], .int 1]`.  DerivePublic returns
+    `[.arr [], .arr [], .int 1]` on both error paths.
+  * `.panic` of the model arises only from a panic of ScalarBaseMult (hypothesis `CalleeFails`) or of TestPrivateKey
+    (context whose `nMinus1Bytes` is shorter than 32 bytes: ConstantTimeCmp indexes out of range; the IR is stuck).
+
+  Sanity evaluation of the real program (`runT prog globals (readerOracle (fun _ _ => []) s) 30000 97 [.int 1]` against
+  `Model.SM2.generateKey Model.SM2.ctxFiat (some s)`; scratch file, 40 s): `s = []` and `s = [.fail, …]`: model `.err`,
+  IR `[_, [], [], 1]`; `s = [data 0^40, zero, data 7^30]` (first candidate 0 rejected, second read spans two items):
+  both ok, identical `priv, x, y`, 64 bytes consumed; `s = [data FF^32, data 0^32, data 1^16, zero, data 2^20]` (two
+  rejections): both ok, identical results, 96 bytes consumed; nil reader: `[[], [], [], 1]`.
+-/
 import SMGo.Proofs.CTIRRefinePointA
 import SMGo.Proofs.CTIRRefineComb
 import SMGo.Proofs.CTIRRefineCurve
@@ -178,13 +220,12 @@ end Exprs
 /-! ## 3. `sm2.DerivePublic` (`fn_96`) -/
 
 /-- the contract of `internal.ScalarBaseMult` (function 87) against `Model.SM2.scalarBaseMult` -/
-def SbmSpec {α β : Type} (P : Prog) (G : Nat → Val) (O : Oracle) (X : Model.SM2.Ctx α β) (enc : α → List Nat)
-    (Fsbm : Nat) : Prop :=
-  ∀ k : Bytes,
-    match Model.SM2.scalarBaseMult X k with
-    | .ok r => Computes P G O 87 Fsbm [bytesV k] [ptV enc r, .int 0]
-    | .err => Computes P G O 87 Fsbm [bytesV k] [nilPointV, .int 1]
-    | .panic => CalleeFails P G O 87 [bytesV k]
+def SbmAt {α β : Type} (P : Prog) (G : Nat → Val) (O : Oracle) (X : Model.SM2.Ctx α β) (enc : α → List Nat)
+    (Fsbm : Nat) (k : Bytes) : Prop :=
+  match Model.SM2.scalarBaseMult X k with
+  | .ok r => Computes P G O 87 Fsbm [bytesV k] [ptV enc r, .int 0]
+  | .err => Computes P G O 87 Fsbm [bytesV k] [nilPointV, .int 1]
+  | .panic => CalleeFails P G O 87 [bytesV k]
 
 /-- the contract of `(*SM2Point).Bytes` (function 91) against `Model.Point.bytes … true` -/
 def BytesSpec {α β : Type} (P : Prog) (G : Nat → Val) (O : Oracle) (X : Model.SM2.Ctx α β) (enc : α → List Nat)
@@ -211,7 +252,7 @@ variable {Fsbm Fbytes : Nat}
 /-- fuel for the body of DerivePublic -/
 def fuelDerive (Fsbm Fbytes : Nat) : Nat := Fsbm + Fbytes + 40
 
-theorem derive_body (H1 : SbmSpec P G O X enc Fsbm) (H2 : BytesSpec P G O X enc Fbytes) (priv : Bytes) :
+theorem derive_body (priv : Bytes) (hsb : SbmAt P G O X enc Fsbm priv) (H2 : BytesSpec P G O X enc Fbytes) :
     (∀ x y, pubOf X priv = .ok (x, y) →
       ∃ env', EvIn P G O (fuelDerive Fsbm Fbytes) (Env.ofList [bytesV priv]) fn_96.body env'
         (.ret [bytesV x, bytesV y, .int 0])) ∧
@@ -231,7 +272,7 @@ theorem derive_body (H1 : SbmSpec P G O X enc Fsbm) (H2 : BytesSpec P G O X enc 
       (.assign 5 [] (.mk (.lit 3) (.mk (.lit 1) (.mk (.lit 4) (.lit 0))))) e4 .norm := EvIn.assign (mkNil _)
   have ha : evalVs G e4 [(.var 0)] = some [bytesV priv] := by
     simp [evalVs_cons, e4, e0, Env.set, Env.ofList]
-  have hsb := H1 priv
+  unfold SbmAt at hsb
   unfold pubOf
   cases hs : Model.SM2.scalarBaseMult X priv with
   | panic =>
@@ -319,4 +360,657 @@ theorem derive_body (H1 : SbmSpec P G O X enc Fsbm) (H2 : BytesSpec P G O X enc 
 
 end Derive
 
+/-! ## 4. The reader: external 11 (`io.ReadFull`) against `Model.SM2.readFull` -/
+
+/-- the contract of the external `io.ReadFull` (external 11; arguments reader, length, position; results buffer, n,
+    err, next position) against the scripted reader of the model: `sc p` is the script at reader position `p` -/
+def ReaderSpec (O : Oracle) (rd : Val) (sc : Nat → Script) : Prop :=
+  ∀ p : Nat,
+    match readFull (sc p) 32 [] with
+    | (some b, rest) =>
+        O 11 [rd, .int 32, .int (p : Int)] = [bytesV b, .int 32, .int 0, .int ((p + 1 : Nat) : Int)] ∧ sc (p + 1) = rest
+    | (none, rest) =>
+        ∃ buf n e, O 11 [rd, .int 32, .int (p : Int)] = [buf, .int n, .int e, .int ((p + 1 : Nat) : Int)] ∧ e ≠ 0 ∧
+          sc (p + 1) = rest
+
+/-- the script after `p` calls of `io.ReadFull(rand, buf[:32])` -/
+def scriptAt (s : Script) : Nat → Script
+  | 0 => s
+  | p + 1 => (readFull (scriptAt s p) 32 []).2
+
+/-- a concrete oracle: external 11 is answered from the script `s` (the reader position selects how many reads have
+    been made), every other external is delegated to `base` -/
+def readerOracle (base : Oracle) (s : Script) : Oracle := fun name args =>
+  if name = 11 then
+    match args with
+    | [_, _, .int p] =>
+      match readFull (scriptAt s p.toNat) 32 [] with
+      | (some b, _) => [bytesV b, .int 32, .int 0, .int (p + 1)]
+      | (none, _) => [.arr (List.replicate 32 (.int 0)), .int 0, .int 1, .int (p + 1)]
+    | _ => []
+  else base name args
+
+theorem readerOracle_other (base : Oracle) (s : Script) {name : Nat} (h : name ≠ 11) (args : List Val) :
+    readerOracle base s name args = base name args := by
+  simp only [readerOracle, if_neg h]
+
+/-- the hypothesis on the reader is satisfiable: `readerOracle` satisfies it, for any reader handle -/
+theorem readerOracle_spec (base : Oracle) (s : Script) (rd : Val) :
+    ReaderSpec (readerOracle base s) rd (scriptAt s) := by
+  intro p
+  cases h : readFull (scriptAt s p) 32 [] with
+  | mk ob rest =>
+    have hs : scriptAt s (p + 1) = rest := by simp only [scriptAt, h]
+    cases ob with
+    | some b =>
+      refine ⟨?_, hs⟩
+      simp only [readerOracle, if_pos, Int.toNat_natCast, h]
+      rfl
+    | none =>
+      refine ⟨.arr (List.replicate 32 (.int 0)), 0, 1, ?_, by decide, hs⟩
+      simp only [readerOracle, if_pos, Int.toNat_natCast, h]
+      rfl
+
+
+/-! ## 5. `sm2.GenerateKey` (`fn_97`) -/
+
+def gErrS : Stmt := .seq (.assign 4 [] (.lit 1)) (.ret [(.var 1), (.var 2), (.var 3), (.var 4)])
+def gNilS : Stmt := .ite (.op2 .eq (.var 0) (.lit 0)) gErrS .skip
+def gExtS : Stmt := .ext [1, 7, 8, 6] 11 true [(.var 0), (.len (.var 1)), (.var 6)]
+def gIteE : Stmt := .ite (.op2 .ne (.var 4) (.lit 0)) gErrS .skip
+def gCall1 : Stmt := .call [9] 1 [(.var 1)]
+def gDecl : Stmt := .declass 10 7 (.op2 .eq (.var 9) (.lit 0))
+def gIteB : Stmt := .ite (.var 10) (.brk) .skip
+def gBodyS : Stmt := .seq gExtS (.seq (.assign 4 [] (.var 8)) (.seq gIteE (.seq gCall1 (.seq gDecl gIteB))))
+def gLoopS : Stmt := .loop (.lit 1) gBodyS .skip
+def gIte1 : Stmt := .ite (.op2 .ne (.var 4) (.lit 0)) (.ret [(.var 1), (.var 2), (.var 3), (.var 4)]) .skip
+def gIte2 : Stmt := .ite (.op2 .ne (.len (.var 14)) (.lit 65)) gErrS .skip
+def gRet : Stmt :=
+  .ret [(.var 1), (.slice (.var 14) (.lit 1) (.lit 33)), (.slice (.var 14) (.lit 33) (.len (.var 14))), (.lit 0)]
+def gTailS : Stmt :=
+  .seq (.assign 11 [] (.mk (.lit 3) (.mk (.lit 1) (.mk (.lit 4) (.lit 0))))) (.seq (.call [12, 13] 87 [(.var 1)])
+  (.seq (.assign 11 [] (.var 12)) (.seq (.assign 4 [] (.var 13)) (.seq gIte1
+  (.seq (.assign 14 [] (.mk (.lit 0) (.lit 0))) (.seq (.call [15] 91 [(.var 11)]) (.seq (.assign 14 [] (.var 15))
+  (.seq gIte2 (.seq gRet .panic)))))))))
+
+theorem fn_97_body : fn_97.body =
+    .seq (.assign 1 [] (.mk (.lit 0) (.lit 0))) (.seq (.assign 2 [] (.mk (.lit 0) (.lit 0)))
+    (.seq (.assign 3 [] (.mk (.lit 0) (.lit 0))) (.seq (.assign 4 [] (.lit 0)) (.seq (.assign 6 [] (.lit 0))
+    (.seq gNilS (.seq (.assign 1 [] (.mk (.lit 32) (.lit 0))) (.seq gLoopS gTailS))))))) := rfl
+
+section Generate
+variable {P : Prog} {G : Nat → Val} {O : Oracle} {α β : Type} {X : Model.SM2.Ctx α β} {enc : α → List Nat}
+variable {Fsbm Fbytes : Nat}
+
+theorem evIn_ext' {env env1 : Env} {lhs : List Nat} {name : Nat} {leaky : Bool} {args : List Expr} {vs : List Val}
+    (ha : evalVs G env args = some vs) (hset : env.setMany lhs (O name vs) = some env1) :
+    EvIn P G O 1 env (.ext lhs name leaky args) env1 .norm := by
+  intro f hf; obtain ⟨f, rfl⟩ := Nat.exists_eq_add_of_le' hf
+  rw [execV_ext, ha]
+  simp [hset]
+
+/-- the error exit `err = errors.New(…); return` -/
+theorem gErr_ok {env : Env} {v : Val} (h1 : env 1 = v) (h2 : env 2 = .arr []) (h3 : env 3 = .arr []) :
+    EvIn P G O 3 env gErrS (env.set 4 (.int 1)) (.ret [v, .arr [], .arr [], .int 1]) := by
+  have sr : evalVs G (env.set 4 (.int 1)) [(.var 1), (.var 2), (.var 3), (.var 4)] = some [v, .arr [], .arr [], .int 1] := by
+    simp [evalVs_cons, Env.set, h1, h2, h3]
+  exact EvIn.seq (EvIn.assign rfl) (EvIn.ret sr)
+
+/-- from `pub, err = internal.ScalarBaseMult(priv)` to the end -/
+theorem gk_tail {env : Env} {priv : Bytes} (hsb : SbmAt P G O X enc Fsbm priv) (H2 : BytesSpec P G O X enc Fbytes)
+    (h1 : env 1 = bytesV priv) (h2 : env 2 = .arr []) (h3 : env 3 = .arr []) :
+    (∀ x y, pubOf X priv = .ok (x, y) →
+      ∃ env', EvIn P G O (fuelDerive Fsbm Fbytes) env gTailS env' (.ret [bytesV priv, bytesV x, bytesV y, .int 0])) ∧
+    (pubOf X priv = .err →
+      ∃ env', EvIn P G O (fuelDerive Fsbm Fbytes) env gTailS env' (.ret [bytesV priv, .arr [], .arr [], .int 1])) ∧
+    (pubOf X priv = .panic → Fails P G O env gTailS) := by
+  unfold gTailS
+  let e1 : Env := env.set 11 nilPointV
+  have c1 : EvIn P G O 1 env (.assign 11 [] (.mk (.lit 3) (.mk (.lit 1) (.mk (.lit 4) (.lit 0))))) e1 .norm :=
+    EvIn.assign (mkNil _)
+  have ha : evalVs G e1 [(.var 1)] = some [bytesV priv] := by
+    simp [evalVs_cons, e1, Env.set, h1]
+  unfold SbmAt at hsb
+  unfold pubOf
+  cases hs : Model.SM2.scalarBaseMult X priv with
+  | panic =>
+    rw [hs] at hsb
+    simp only [Outcome.bind_panic]
+    refine ⟨(fun x y h => nomatch h), (fun h => nomatch h), fun _ => ?_⟩
+    exact Fails.seq_right c1 (Fails.seq_left (Fails.call ha hsb))
+  | err =>
+    rw [hs] at hsb
+    simp only [Outcome.bind_err]
+    refine ⟨(fun x y h => nomatch h), fun _ => ?_, (fun h => nomatch h)⟩
+    let e2 : Env := (e1.set 12 nilPointV).set 13 (.int 1)
+    let e3 : Env := e2.set 11 nilPointV
+    let e4 : Env := e3.set 4 (.int 1)
+    have c2 : EvIn P G O (Fsbm + 1) e1 (.call [12, 13] 87 [(.var 1)]) e2 .norm := Computes.call hsb ha rfl
+    have c3 : EvIn P G O 1 e2 (.assign 11 [] (.var 12)) e3 .norm := EvIn.assign (by simp [e2, Env.set])
+    have c4 : EvIn P G O 1 e3 (.assign 4 [] (.var 13)) e4 .norm := EvIn.assign (by simp [e3, e2, Env.set])
+    have hc : evalV G e4 (.op2 .ne (.var 4) (.lit 0)) = some (.int (ofBool ((1 : Int) != 0))) :=
+      ne0_val (by simp [e4, Env.set])
+    have sr : evalVs G e4 [(.var 1), (.var 2), (.var 3), (.var 4)] = some [bytesV priv, .arr [], .arr [], .int 1] := by
+      simp [evalVs_cons, e4, e3, e2, e1, Env.set, h1, h2, h3]
+    have c5 : EvIn P G O 2 e4 gIte1 e4 (.ret [bytesV priv, .arr [], .arr [], .int 1]) := EvIn.ite hc rfl (EvIn.ret sr)
+    exact ⟨e4, (EvIn.seq c1 (EvIn.seq c2 (EvIn.seq c3 (EvIn.seq c4 (EvIn.seq_stop c5 (by simp)))))).mono
+      (by simp only [fuelDerive]; omega)⟩
+  | ok pub =>
+    rw [hs] at hsb
+    simp only [Outcome.bind_ok]
+    let pb := Model.Point.bytes X.C pub true
+    let e2 : Env := (e1.set 12 (ptV enc pub)).set 13 (.int 0)
+    let e3 : Env := e2.set 11 (ptV enc pub)
+    let e4 : Env := e3.set 4 (.int 0)
+    let e5 : Env := e4.set 14 (.arr [])
+    let e6 : Env := e5.set 15 (bytesV pb)
+    let e7 : Env := e6.set 14 (bytesV pb)
+    have c2 : EvIn P G O (Fsbm + 1) e1 (.call [12, 13] 87 [(.var 1)]) e2 .norm := Computes.call hsb ha rfl
+    have c3 : EvIn P G O 1 e2 (.assign 11 [] (.var 12)) e3 .norm := EvIn.assign (by simp [e2, Env.set])
+    have c4 : EvIn P G O 1 e3 (.assign 4 [] (.var 13)) e4 .norm := EvIn.assign (by simp [e3, e2, Env.set])
+    have hc : evalV G e4 (.op2 .ne (.var 4) (.lit 0)) = some (.int (ofBool ((0 : Int) != 0))) :=
+      ne0_val (by simp [e4, Env.set])
+    have c5 : EvIn P G O 2 e4 gIte1 e4 .norm := EvIn.ite hc rfl (EvIn.skip _)
+    have c6 : EvIn P G O 1 e4 (.assign 14 [] (.mk (.lit 0) (.lit 0))) e5 .norm := EvIn.assign (mk00 _)
+    have hb : evalVs G e5 [(.var 11)] = some [ptV enc pub] := by
+      simp [evalVs_cons, e5, e4, e3, Env.set]
+    have c7 : EvIn P G O (Fbytes + 1) e5 (.call [15] 91 [(.var 11)]) e6 .norm := Computes.call (H2 pub) hb rfl
+    have c8 : EvIn P G O 1 e6 (.assign 14 [] (.var 15)) e7 .norm := EvIn.assign (by simp [e6, Env.set])
+    have h14 : e7 14 = bytesV pb := by simp [e7, Env.set]
+    have g1 : e7 1 = bytesV priv := by simp [e7, e6, e5, e4, e3, e2, e1, Env.set, h1]
+    have g2 : e7 2 = .arr [] := by simp [e7, e6, e5, e4, e3, e2, e1, Env.set, h2]
+    have g3 : e7 3 = .arr [] := by simp [e7, e6, e5, e4, e3, e2, e1, Env.set, h3]
+    have pre : ∀ {env' : Env} {c : Ctl} {F : Nat}, EvIn P G O F e7 (.seq gIte2 (.seq gRet .panic)) env' c →
+        EvIn P G O (F + Fsbm + Fbytes + 30) env _ env' c := fun h =>
+      (EvIn.seq c1 (EvIn.seq c2 (EvIn.seq c3 (EvIn.seq c4 (EvIn.seq c5 (EvIn.seq c6 (EvIn.seq c7
+        (EvIn.seq c8 h)))))))).mono (by omega)
+    by_cases hl : pb.length = 65
+    · have hne : ¬ (Model.Point.bytes X.C pub true).length ≠ 65 := fun h => h hl
+      rw [if_neg hne]
+      refine ⟨fun x y h => ?_, (fun h => nomatch h), (fun h => nomatch h)⟩
+      simp only [Outcome.ok.injEq, Prod.mk.injEq] at h
+      obtain ⟨hx, hy⟩ := h
+      have c9 : EvIn P G O 2 e7 gIte2 e7 .norm := EvIn.ite (len_ne65_false h14 hl) rfl (EvIn.skip _)
+      have s1 : evalV G e7 (.slice (.var 14) (.lit 1) (.lit 33)) = some (bytesV x) := by
+        rw [← hx]
+        exact slice_bytes (lo := 1) (hi := 33) h14 rfl rfl (by omega) (by omega)
+      have s2 : evalV G e7 (.slice (.var 14) (.lit 33) (.len (.var 14))) = some (bytesV y) := by
+        rw [← hy]
+        have := slice_bytes (G := G) (lo := 33) (hi := pb.length) (elo := .lit 33) (ehi := .len (.var 14)) h14 rfl
+          (len_bytes h14) (by omega) (Nat.le_refl _)
+        rw [this, List.take_of_length_le (by simp only [List.length_drop]; omega)]
+      have sr : evalVs G e7 [(.var 1), (.slice (.var 14) (.lit 1) (.lit 33)),
+          (.slice (.var 14) (.lit 33) (.len (.var 14))), (.lit 0)]
+          = some [bytesV priv, bytesV x, bytesV y, .int 0] := by
+        simp only [evalVs_cons, evalVs_nil, s1, s2, evalV_lit, evalV_var, g1]
+      exact ⟨e7, (pre (EvIn.seq c9 (EvIn.seq_stop (EvIn.ret sr) (by simp)))).mono
+        (by simp only [fuelDerive]; omega)⟩
+    · have hne : (Model.Point.bytes X.C pub true).length ≠ 65 := hl
+      rw [if_pos hne]
+      refine ⟨(fun x y h => nomatch h), fun _ => ?_, (fun h => nomatch h)⟩
+      have c9 : EvIn P G O 4 e7 gIte2 (e7.set 4 (.int 1)) (.ret [bytesV priv, .arr [], .arr [], .int 1]) :=
+        EvIn.ite (len_ne65_true h14 hl) rfl (gErr_ok g1 g2 g3)
+      exact ⟨_, (pre (EvIn.seq_stop c9 (by simp))).mono (by simp only [fuelDerive]; omega)⟩
+
+/-- the state at the head of the rejection loop: the reader, a 32-byte `priv`, empty `x`, `y`, the reader position -/
+structure LInv (rd : Val) (env : Env) (p : Nat) : Prop where
+  h0 : env 0 = rd
+  h1 : ∃ l, env 1 = .arr l ∧ l.length = 32
+  h2 : env 2 = .arr []
+  h3 : env 3 = .arr []
+  h6 : env 6 = .int (p : Int)
+
+theorem ext_args {rd : Val} {env : Env} {p : Nat} (h : LInv rd env p) :
+    evalVs G env [(.var 0), (.len (.var 1)), (.var 6)] = some [rd, .int 32, .int (p : Int)] := by
+  obtain ⟨l, hl, hn⟩ := h.h1
+  have : evalV G env (.len (.var 1)) = some (.int 32) := by
+    rw [evalV_len, evalV_var, hl]
+    simp only [hn]
+    rfl
+  simp only [evalVs_cons, evalVs_nil, evalV_var, this, h.h0, h.h6]
+
+/-- fuel for one round of the loop body -/
+def fuelRoundG : Nat := fuelTest + 20
+
+/-- a round whose `io.ReadFull` fails: the function returns the error -/
+theorem round_none {rd : Val} {sc : Nat → Script} (HR : ReaderSpec O rd sc) {env : Env} {p : Nat}
+    (hinv : LInv rd env p) {rest : Script} (hrf : readFull (sc p) 32 [] = (none, rest)) :
+    ∃ env' v, EvIn P G O fuelRoundG env gBodyS env' (.ret [v, .arr [], .arr [], .int 1]) := by
+  have hO := HR p
+  rw [hrf] at hO
+  obtain ⟨buf, n, e, hO, he, _⟩ := hO
+  let e1 : Env := (((env.set 1 buf).set 7 (.int n)).set 8 (.int e)).set 6 (.int ((p + 1 : Nat) : Int))
+  let e2 : Env := e1.set 4 (.int e)
+  have c1 : EvIn P G O 1 env gExtS e1 .norm := evIn_ext' (ext_args hinv) (by rw [hO]; rfl)
+  have c2 : EvIn P G O 1 e1 (.assign 4 [] (.var 8)) e2 .norm := EvIn.assign (by simp [e1, Env.set])
+  have hc : evalV G e2 (.op2 .ne (.var 4) (.lit 0)) = some (.int (ofBool (e != 0))) := ne0_val (by simp [e2, Env.set])
+  have hd : asBool (.int (ofBool (e != 0))) = some true := by
+    have : (e != 0) = true := by simp only [bne_iff_ne, ne_eq]; exact he
+    rw [this]; rfl
+  have g1 : e2 1 = buf := by simp [e2, e1, Env.set]
+  have g2 : e2 2 = .arr [] := by simp [e2, e1, Env.set, hinv.h2]
+  have g3 : e2 3 = .arr [] := by simp [e2, e1, Env.set, hinv.h3]
+  have c3 : EvIn P G O 4 e2 gIteE (e2.set 4 (.int 1)) (.ret [buf, .arr [], .arr [], .int 1]) :=
+    EvIn.ite hc hd (gErr_ok g1 g2 g3)
+  exact ⟨_, buf, (EvIn.seq c1 (EvIn.seq c2 (EvIn.seq_stop c3 (by simp)))).mono (by simp only [fuelRoundG]; omega)⟩
+
+/-- a round whose `io.ReadFull` delivers the candidate `b` -/
+theorem round_some (h0 : P[f_utils_ConstantTimeCmp]? = some fn_0) (h1 : P[f_sm2_TestPrivateKey]? = some fn_1)
+    (hG : G 5 = bytesV (Model.SM2.nMinus1Bytes X))
+    {rd : Val} {sc : Nat → Script} (HR : ReaderSpec O rd sc) {env : Env} {p : Nat}
+    (hinv : LInv rd env p) {b : Bytes} {rest : Script} (hrf : readFull (sc p) 32 [] = (some b, rest)) :
+    (∀ t, Model.SM2.testPrivateKey X b = .ok t →
+      ∃ env', EvIn P G O fuelRoundG env gBodyS env' (if t = 0 then .brk else .norm) ∧ env' 1 = bytesV b ∧
+        LInv rd env' (p + 1)) ∧
+    (Model.SM2.testPrivateKey X b = .panic → Fails P G O env gBodyS) := by
+  have hO := HR p
+  rw [hrf] at hO
+  obtain ⟨hO, _⟩ := hO
+  have hb32 : b.length = 32 := by simpa using readFull_length _ _ _ _ _ hrf
+  let e1 : Env := (((env.set 1 (bytesV b)).set 7 (.int 32)).set 8 (.int 0)).set 6 (.int ((p + 1 : Nat) : Int))
+  let e2 : Env := e1.set 4 (.int 0)
+  have c1 : EvIn P G O 1 env gExtS e1 .norm := evIn_ext' (ext_args hinv) (by rw [hO]; rfl)
+  have c2 : EvIn P G O 1 e1 (.assign 4 [] (.var 8)) e2 .norm := EvIn.assign (by simp [e1, Env.set])
+  have hc : evalV G e2 (.op2 .ne (.var 4) (.lit 0)) = some (.int (ofBool ((0 : Int) != 0))) :=
+    ne0_val (by simp [e2, Env.set])
+  have c3 : EvIn P G O 2 e2 gIteE e2 .norm := EvIn.ite hc rfl (EvIn.skip _)
+  have ha : evalVs G e2 [(.var 1)] = some [bytesV b] := by simp [evalVs_cons, e2, e1, Env.set]
+  refine ⟨fun t ht => ?_, fun ht => ?_⟩
+  · obtain ⟨envc, hbody⟩ := test_body_ok (P := P) (G := G) (X := O) h0 X hG b (by omega) t ht
+    let e3 : Env := e2.set 9 (.int t)
+    let e4 : Env := e3.set 10 (.int (ofBool (t == 0)))
+    have c4 : EvIn P G O (fuelTest + 1) e2 gCall1 e3 .norm := EvIn.call ha h1 rfl rfl hbody rfl
+    have hq : evalV G e3 (.op2 .eq (.var 9) (.lit 0)) = some (.int (ofBool (t == 0))) := by
+      have : e3 9 = .int t := by simp [e3, Env.set]
+      simp only [evalV_op2, evalV_var, evalV_lit, this, evalOp2, Option.map_some]
+    have c5 : EvIn P G O 1 e3 gDecl e4 .norm := evIn_declass hq
+    have hv : evalV G e4 (.var 10) = some (.int (ofBool (t == 0))) := by simp [e4, Env.set]
+    have g1 : e4 1 = bytesV b := by simp [e4, e3, e2, e1, Env.set]
+    have hinv' : LInv rd e4 (p + 1) :=
+      ⟨by simp [e4, e3, e2, e1, Env.set, hinv.h0], ⟨_, g1, by simp [hb32]⟩,
+       by simp [e4, e3, e2, e1, Env.set, hinv.h2], by simp [e4, e3, e2, e1, Env.set, hinv.h3],
+       by simp [e4, e3, e2, e1, Env.set]⟩
+    refine ⟨e4, ?_, g1, hinv'⟩
+    by_cases htz : t = 0
+    · rw [if_pos htz]
+      have hd : asBool (.int (ofBool (t == 0))) = some true := by subst htz; rfl
+      have c6 : EvIn P G O 2 e4 gIteB e4 .brk := EvIn.ite hv hd (EvIn.brk _)
+      exact (EvIn.seq c1 (EvIn.seq c2 (EvIn.seq c3 (EvIn.seq c4 (EvIn.seq c5 c6))))).mono
+        (by simp only [fuelRoundG]; omega)
+    · rw [if_neg htz]
+      have hd : asBool (.int (ofBool (t == 0))) = some false := by
+        have : (t == 0) = false := by simp only [beq_eq_false_iff_ne, ne_eq]; exact htz
+        rw [this]; rfl
+      have c6 : EvIn P G O 2 e4 gIteB e4 .norm := EvIn.ite hv hd (EvIn.skip _)
+      exact (EvIn.seq c1 (EvIn.seq c2 (EvIn.seq c3 (EvIn.seq c4 (EvIn.seq c5 c6))))).mono
+        (by simp only [fuelRoundG]; omega)
+  · have hst := test_body_stuck (P := P) (G := G) (X := O) h0 X hG b (by omega) ht
+    exact Fails.seq_right c1 (Fails.seq_right c2 (Fails.seq_right c3 (Fails.seq_left
+      (Or.inr (Stuck.call ha h1 hst)))))
+
+/-- fuel for the rejection loop with at most `n` candidates -/
+def fuelLoop (n : Nat) : Nat := n * 640 + 2
+
+theorem fuelRoundG_le : fuelRoundG + 4 ≤ 640 := by decide
+
+/-- the rejection loop against `genKeyLoop`: the model's candidate bound is never exhausted (`avail < 32·fuel`) -/
+theorem gk_loop (h0 : P[f_utils_ConstantTimeCmp]? = some fn_0) (h1 : P[f_sm2_TestPrivateKey]? = some fn_1)
+    (hG : G 5 = bytesV (Model.SM2.nMinus1Bytes X))
+    {rd : Val} {sc : Nat → Script} (HR : ReaderSpec O rd sc) :
+    ∀ (fuel p : Nat) (env : Env), LInv rd env p → avail (sc p) < 32 * fuel →
+      (∀ priv rest, genKeyLoop X fuel (sc p) = .ok (priv, rest) →
+        ∃ env', EvIn P G O (fuelLoop fuel) env gLoopS env' .norm ∧ env' 1 = bytesV priv ∧ env' 2 = .arr [] ∧
+          env' 3 = .arr []) ∧
+      (genKeyLoop X fuel (sc p) = .err →
+        ∃ env' v, EvIn P G O (fuelLoop fuel) env gLoopS env' (.ret [v, .arr [], .arr [], .int 1])) ∧
+      (genKeyLoop X fuel (sc p) = .panic → Fails P G O env gLoopS) := by
+  intro fuel
+  induction fuel with
+  | zero => intro p env _ hav; omega
+  | succ fuel ih =>
+    intro p env hinv hav
+    have hcnd : evalV G env (.lit 1) = some (.int 1) := rfl
+    have hle := fuelRoundG_le
+    cases hrf : readFull (sc p) 32 [] with
+    | mk ob rest =>
+      cases ob with
+      | none =>
+        rw [genKeyLoop_none X fuel hrf]
+        refine ⟨(fun _ _ h => nomatch h), fun _ => ?_, (fun h => nomatch h)⟩
+        obtain ⟨env', v, hb⟩ := round_none (P := P) (G := G) HR hinv hrf
+        exact ⟨env', v, (EvIn.loop_leave (post := .skip) hcnd rfl hb (by simp)).mono
+          (by simp only [fuelLoop]; omega)⟩
+      | some b =>
+        have hnext : sc (p + 1) = rest := by
+          have hO := HR p
+          rw [hrf] at hO
+          exact hO.2
+        have hav' : avail (sc (p + 1)) < 32 * fuel := by
+          have := readFull_avail _ _ _ _ _ hrf
+          rw [hnext]; omega
+        obtain ⟨hok, hpan⟩ := round_some (P := P) (G := G) (X := X) h0 h1 hG HR hinv hrf
+        cases ht : Model.SM2.testPrivateKey X b with
+        | err => exact absurd ht (testPrivateKey_ne_err X b)
+        | panic =>
+          rw [genKeyLoop_panic X fuel hrf ht]
+          refine ⟨(fun _ _ h => nomatch h), (fun h => nomatch h), fun _ => ?_⟩
+          exact Fails.loop_body hcnd rfl (hpan ht)
+        | ok t =>
+          obtain ⟨env', hb, g1, hinv'⟩ := hok t ht
+          by_cases htz : t = 0
+          · subst htz
+            rw [genKeyLoop_accept X fuel hrf ht]
+            refine ⟨fun priv rest' h => ?_, (fun h => nomatch h), (fun h => nomatch h)⟩
+            simp only [Outcome.ok.injEq, Prod.mk.injEq] at h
+            obtain ⟨hpr, _⟩ := h
+            subst hpr
+            rw [if_pos rfl] at hb
+            exact ⟨env', (EvIn.loop_leave (post := .skip) hcnd rfl hb (by simp)).mono
+              (by simp only [fuelLoop]; omega), g1, hinv'.h2, hinv'.h3⟩
+          · rw [genKeyLoop_reject X fuel hrf ht htz, ← hnext]
+            rw [if_neg htz] at hb
+            obtain ⟨i1, i2, i3⟩ := ih (p + 1) env' hinv' hav'
+            refine ⟨fun priv rest' h => ?_, fun h => ?_, fun h => ?_⟩
+            · obtain ⟨env'', hl, r1, r2, r3⟩ := i1 priv rest' h
+              exact ⟨env'', (EvIn.loop_round hcnd rfl hb (Or.inl rfl) (EvIn.skip _) hl).mono
+                (by simp only [fuelLoop] at *; omega), r1, r2, r3⟩
+            · obtain ⟨env'', v, hl⟩ := i2 h
+              exact ⟨env'', v, (EvIn.loop_round hcnd rfl hb (Or.inl rfl) (EvIn.skip _) hl).mono
+                (by simp only [fuelLoop] at *; omega)⟩
+            · exact Fails.loop_round hcnd rfl hb (Or.inl rfl) (EvIn.skip _) (i3 h)
+
+theorem genKeyLoop_length (X : Model.SM2.Ctx α β) : ∀ (fuel : Nat) (sc : Script) (priv : Bytes) (rest : Script),
+    genKeyLoop X fuel sc = .ok (priv, rest) → priv.length = 32 := by
+  intro fuel
+  induction fuel with
+  | zero => intro sc priv rest h; exact nomatch h
+  | succ fuel ih =>
+    intro sc priv rest h
+    cases hrf : readFull sc 32 [] with
+    | mk ob rest' =>
+      cases ob with
+      | none => rw [genKeyLoop_none X fuel hrf] at h; exact nomatch h
+      | some b =>
+        have hb32 : b.length = 32 := by simpa using readFull_length _ _ _ _ _ hrf
+        cases ht : Model.SM2.testPrivateKey X b with
+        | err => exact absurd ht (testPrivateKey_ne_err X b)
+        | panic => rw [genKeyLoop_panic X fuel hrf ht] at h; exact nomatch h
+        | ok t =>
+          by_cases htz : t = 0
+          · subst htz
+            rw [genKeyLoop_accept X fuel hrf ht] at h
+            simp only [Outcome.ok.injEq, Prod.mk.injEq] at h
+            rw [← h.1]; exact hb32
+          · rw [genKeyLoop_reject X fuel hrf ht htz] at h
+            exact ih _ _ _ h
+
+/-- fuel for the body of GenerateKey: `n` = the model's bound on the number of candidates -/
+def fuelGen (n Fsbm Fbytes : Nat) : Nat := fuelLoop n + fuelDerive Fsbm Fbytes + 20
+
+/-- BODY LEVEL: GenerateKey with a non-nil reader `rd = .int r`, `r ≠ 0` -/
+theorem gen_body (h0 : P[f_utils_ConstantTimeCmp]? = some fn_0) (h1 : P[f_sm2_TestPrivateKey]? = some fn_1)
+    (hG : G 5 = bytesV (Model.SM2.nMinus1Bytes X)) {r : Int} (hr : r ≠ 0) {sc : Nat → Script}
+    (HR : ReaderSpec O (.int r) sc)
+    (H1 : ∀ k : Bytes, k.length = 32 → SbmAt P G O X enc Fsbm k) (H2 : BytesSpec P G O X enc Fbytes) :
+    (∀ priv x y n, Model.SM2.generateKey X (some (sc 0)) = .ok ((priv, x, y), n) →
+      ∃ env', EvIn P G O (fuelGen (avail (sc 0) / 32 + 1) Fsbm Fbytes) (Env.ofList [.int r]) fn_97.body env'
+        (.ret [bytesV priv, bytesV x, bytesV y, .int 0])) ∧
+    (Model.SM2.generateKey X (some (sc 0)) = .err →
+      ∃ env' v, EvIn P G O (fuelGen (avail (sc 0) / 32 + 1) Fsbm Fbytes) (Env.ofList [.int r]) fn_97.body env'
+        (.ret [v, .arr [], .arr [], .int 1])) ∧
+    (Model.SM2.generateKey X (some (sc 0)) = .panic → Fails P G O (Env.ofList [.int r]) fn_97.body) := by
+  rw [fn_97_body, generateKey_some]
+  let e0 : Env := Env.ofList [.int r]
+  let e5 : Env := ((((e0.set 1 (.arr [])).set 2 (.arr [])).set 3 (.arr [])).set 4 (.int 0)).set 6 (.int 0)
+  let e6 : Env := e5.set 1 (.arr (List.replicate 32 (.int 0)))
+  have c1 : EvIn P G O 1 e0 (.assign 1 [] (.mk (.lit 0) (.lit 0))) (e0.set 1 (.arr [])) .norm := EvIn.assign (mk00 _)
+  have c2 : EvIn P G O 1 (e0.set 1 (.arr [])) (.assign 2 [] (.mk (.lit 0) (.lit 0)))
+      ((e0.set 1 (.arr [])).set 2 (.arr [])) .norm := EvIn.assign (mk00 _)
+  have c3 : EvIn P G O 1 ((e0.set 1 (.arr [])).set 2 (.arr [])) (.assign 3 [] (.mk (.lit 0) (.lit 0)))
+      (((e0.set 1 (.arr [])).set 2 (.arr [])).set 3 (.arr [])) .norm := EvIn.assign (mk00 _)
+  have c4 : EvIn P G O 1 (((e0.set 1 (.arr [])).set 2 (.arr [])).set 3 (.arr [])) (.assign 4 [] (.lit 0))
+      ((((e0.set 1 (.arr [])).set 2 (.arr [])).set 3 (.arr [])).set 4 (.int 0)) .norm := EvIn.assign rfl
+  have c5 : EvIn P G O 1 ((((e0.set 1 (.arr [])).set 2 (.arr [])).set 3 (.arr [])).set 4 (.int 0))
+      (.assign 6 [] (.lit 0)) e5 .norm := EvIn.assign rfl
+  have hc : evalV G e5 (.op2 .eq (.var 0) (.lit 0)) = some (.int (ofBool (r == 0))) := by
+    have : e5 0 = .int r := by simp [e5, e0, Env.set, Env.ofList]
+    simp only [evalV_op2, evalV_var, evalV_lit, this, evalOp2, Option.map_some]
+  have hd : asBool (.int (ofBool (r == 0))) = some false := by
+    have : (r == 0) = false := by simp only [beq_eq_false_iff_ne, ne_eq]; exact hr
+    rw [this]; rfl
+  have c6 : EvIn P G O 2 e5 gNilS e5 .norm := EvIn.ite hc hd (EvIn.skip _)
+  have c7 : EvIn P G O 1 e5 (.assign 1 [] (.mk (.lit 32) (.lit 0))) e6 .norm := EvIn.assign rfl
+  have hinv : LInv (.int r) e6 0 :=
+    ⟨by simp [e6, e5, e0, Env.set, Env.ofList], ⟨List.replicate 32 (.int 0), Env.set_same _ _ _, List.length_replicate⟩,
+     by simp [e6, e5, Env.set], by simp [e6, e5, Env.set], by simp [e6, e5, Env.set]⟩
+  obtain ⟨l1, l2, l3⟩ := gk_loop (P := P) (G := G) (X := X) h0 h1 hG HR (avail (sc 0) / 32 + 1) 0 e6 hinv (by omega)
+  have pre : ∀ {env' : Env} {c : Ctl} {F : Nat}, EvIn P G O F e6 (.seq gLoopS gTailS) env' c →
+      EvIn P G O (F + 15) e0 _ env' c := fun h =>
+    (EvIn.seq c1 (EvIn.seq c2 (EvIn.seq c3 (EvIn.seq c4 (EvIn.seq c5 (EvIn.seq c6 (EvIn.seq c7 h))))))).mono (by omega)
+  have preF : Fails P G O e6 (.seq gLoopS gTailS) → Fails P G O e0 _ := fun h =>
+    Fails.seq_right c1 (Fails.seq_right c2 (Fails.seq_right c3 (Fails.seq_right c4 (Fails.seq_right c5
+      (Fails.seq_right c6 (Fails.seq_right c7 h))))))
+  cases hl : genKeyLoop X (avail (sc 0) / 32 + 1) (sc 0) with
+  | panic =>
+    simp only [Outcome.bind_panic]
+    refine ⟨(fun _ _ _ _ h => nomatch h), (fun h => nomatch h), fun _ => ?_⟩
+    exact preF (Fails.seq_left (l3 hl))
+  | err =>
+    simp only [Outcome.bind_err]
+    refine ⟨(fun _ _ _ _ h => nomatch h), fun _ => ?_, (fun h => nomatch h)⟩
+    obtain ⟨env', v, hloop⟩ := l2 hl
+    exact ⟨env', v, (pre (EvIn.seq_stop hloop (by simp))).mono (by simp only [fuelGen]; omega)⟩
+  | ok pr =>
+    obtain ⟨priv, rest⟩ := pr
+    simp only [Outcome.bind_ok]
+    obtain ⟨env1, hloop, r1, r2, r3⟩ := l1 priv rest hl
+    have h32 := genKeyLoop_length X _ _ _ _ hl
+    obtain ⟨t1, t2, t3⟩ := gk_tail (P := P) (G := G) (O := O) (X := X) (enc := enc) (H1 priv h32) H2 r1 r2 r3
+    cases hp : pubOf X priv with
+    | panic =>
+      simp only [Outcome.bind_panic]
+      refine ⟨(fun _ _ _ _ h => nomatch h), (fun h => nomatch h), fun _ => ?_⟩
+      exact preF (Fails.seq_right hloop (t3 hp))
+    | err =>
+      simp only [Outcome.bind_err]
+      refine ⟨(fun _ _ _ _ h => nomatch h), fun _ => ?_, (fun h => nomatch h)⟩
+      obtain ⟨env', ht⟩ := t2 hp
+      exact ⟨env', bytesV priv, (pre (EvIn.seq hloop ht)).mono (by simp only [fuelGen]; omega)⟩
+    | ok xy =>
+      obtain ⟨x, y⟩ := xy
+      simp only [Outcome.bind_ok]
+      refine ⟨fun priv' x' y' n h => ?_, (fun h => nomatch h), (fun h => nomatch h)⟩
+      simp only [Outcome.ok.injEq, Prod.mk.injEq] at h
+      obtain ⟨⟨q1, q2, q3⟩, _⟩ := h
+      subst q1 q2 q3
+      obtain ⟨env', ht⟩ := t1 x y hp
+      exact ⟨env', (pre (EvIn.seq hloop ht)).mono (by simp only [fuelGen]; omega)⟩
+
+/-- BODY LEVEL: GenerateKey with the nil reader `.int 0` -/
+theorem gen_body_nil :
+    ∃ env', EvIn P G O 20 (Env.ofList [.int 0]) fn_97.body env' (.ret [.arr [], .arr [], .arr [], .int 1]) := by
+  rw [fn_97_body]
+  let e0 : Env := Env.ofList [.int 0]
+  let e5 : Env := ((((e0.set 1 (.arr [])).set 2 (.arr [])).set 3 (.arr [])).set 4 (.int 0)).set 6 (.int 0)
+  have c1 : EvIn P G O 1 e0 (.assign 1 [] (.mk (.lit 0) (.lit 0))) (e0.set 1 (.arr [])) .norm := EvIn.assign (mk00 _)
+  have c2 : EvIn P G O 1 (e0.set 1 (.arr [])) (.assign 2 [] (.mk (.lit 0) (.lit 0)))
+      ((e0.set 1 (.arr [])).set 2 (.arr [])) .norm := EvIn.assign (mk00 _)
+  have c3 : EvIn P G O 1 ((e0.set 1 (.arr [])).set 2 (.arr [])) (.assign 3 [] (.mk (.lit 0) (.lit 0)))
+      (((e0.set 1 (.arr [])).set 2 (.arr [])).set 3 (.arr [])) .norm := EvIn.assign (mk00 _)
+  have c4 : EvIn P G O 1 (((e0.set 1 (.arr [])).set 2 (.arr [])).set 3 (.arr [])) (.assign 4 [] (.lit 0))
+      ((((e0.set 1 (.arr [])).set 2 (.arr [])).set 3 (.arr [])).set 4 (.int 0)) .norm := EvIn.assign rfl
+  have c5 : EvIn P G O 1 ((((e0.set 1 (.arr [])).set 2 (.arr [])).set 3 (.arr [])).set 4 (.int 0))
+      (.assign 6 [] (.lit 0)) e5 .norm := EvIn.assign rfl
+  have hc : evalV G e5 (.op2 .eq (.var 0) (.lit 0)) = some (.int 1) := rfl
+  have c6 : EvIn P G O 4 e5 gNilS (e5.set 4 (.int 1)) (.ret [.arr [], .arr [], .arr [], .int 1]) :=
+    EvIn.ite hc rfl (gErr_ok (by simp [e5, Env.set]) (by simp [e5, Env.set]) (by simp [e5, Env.set]))
+  exact ⟨_, (EvIn.seq c1 (EvIn.seq c2 (EvIn.seq c3 (EvIn.seq c4 (EvIn.seq c5 (EvIn.seq_stop c6 (by simp))))))).mono
+    (by omega)⟩
+
+end Generate
+
+
+/-! ## 6. Runs of the generated program -/
+
+theorem fn96_lookup : prog[f_sm2_DerivePublic]? = some fn_96 := rfl
+theorem fn97_lookup : prog[f_sm2_GenerateKey]? = some fn_97 := rfl
+
+section Run
+variable {G : Nat → Val} {O : Oracle} {α β : Type}
+
+/-- `sm2.DerivePublic`: the run of the generated IR computes `Model.SM2.derivePublic`, modulo the callees
+    `internal.ScalarBaseMult` (87, hypothesis `H1`) and `(*SM2Point).Bytes` (91, hypothesis `H2`).  `priv` is any
+    byte string; no hypothesis on the globals or on the oracle.
+    `.ok (x, y)` ⇒ every run with fuel ≥ `fuelDerive Fsbm Fbytes = Fsbm + Fbytes + 40` returns `[x, y, nil]`;
+    `.err` (ScalarBaseMult reports an error, or `[priv]G` is the point at infinity) ⇒ `[nil, nil, err]`, i.e.
+      `[.arr [], .arr [], .int 1]`;
+    `.panic` (only when ScalarBaseMult panics) ⇒ the run ends in `panic` for all large fuels or is stuck with every
+      fuel. -/
+theorem ir_derivePublic_eq_model (X : Model.SM2.Ctx α β) (enc : α → List Nat) (Fsbm Fbytes : Nat) (priv : Bytes)
+    (H1 : ∀ k : Bytes,
+      match Model.SM2.scalarBaseMult X k with
+      | .ok r => Computes prog G O 87 Fsbm [bytesV k] [ptV enc r, .int 0]
+      | .err => Computes prog G O 87 Fsbm [bytesV k] [nilPointV, .int 1]
+      | .panic => CalleeFails prog G O 87 [bytesV k])
+    (H2 : ∀ p, Computes prog G O 91 Fbytes [ptV enc p] [bytesV (Model.Point.bytes X.C p true)]) :
+    match Model.SM2.derivePublic X priv with
+    | .ok (x, y) => ∀ f, fuelDerive Fsbm Fbytes ≤ f →
+        runV prog G O f f_sm2_DerivePublic [bytesV priv] = .ret [bytesV x, bytesV y, .int 0]
+    | .err => ∀ f, fuelDerive Fsbm Fbytes ≤ f →
+        runV prog G O f f_sm2_DerivePublic [bytesV priv] = .ret [.arr [], .arr [], .int 1]
+    | .panic =>
+        (∃ F, ∀ f, F ≤ f → runV prog G O f f_sm2_DerivePublic [bytesV priv] = .panic) ∨
+        (∀ f, runV prog G O f f_sm2_DerivePublic [bytesV priv] = .stuck) := by
+  obtain ⟨a, b, c⟩ := derive_body (P := prog) (G := G) (O := O) (X := X) (enc := enc) priv (H1 priv) H2
+  rw [derivePublic_eq]
+  cases h : pubOf X priv with
+  | ok xy =>
+    obtain ⟨x, y⟩ := xy
+    obtain ⟨env', he⟩ := a x y h
+    exact runV_of_EvIn fn96_lookup rfl rfl he
+  | err =>
+    obtain ⟨env', he⟩ := b h
+    exact runV_of_EvIn fn96_lookup rfl rfl he
+  | panic => exact runV_of_Fails fn96_lookup rfl rfl (c h)
+
+/-- `sm2.GenerateKey` with a non-nil reader (handle `.int r`, `r ≠ 0`; the IR tests `rand == nil` as `== 0`) whose
+    `io.ReadFull` calls (external 11) follow the scripts `sc 0, sc 1, …` (hypothesis `H4`; `sc p` = the model's script
+    at reader position `p`): the run of the generated IR computes `Model.SM2.generateKey X (some (sc 0))`, modulo the
+    callees ScalarBaseMult (87, `H1`, needed for 32-byte scalars only) and `(*SM2Point).Bytes` (91, `H2`);
+    TestPrivateKey (1) and ConstantTimeCmp (0) are the proved refinements, whence `hG` (global 5 = `sm2.nMinus1Bytes`).
+    `.ok ((priv, x, y), _)` ⇒ every run with fuel ≥ `fuelGen (avail (sc 0) / 32 + 1) Fsbm Fbytes`
+        (= `(avail (sc 0) / 32 + 1) · 640 + Fsbm + Fbytes + 62`) returns `[priv, x, y, nil]`;
+    `.err` (the reader fails, ScalarBaseMult reports an error, or the point is at infinity) ⇒ `[v, nil, nil, err]`
+        = `[v, .arr [], .arr [], .int 1]` where `v` is the current `priv` buffer (what the failing ReadFull left in
+        it, resp. the accepted candidate);
+    `.panic` ⇒ the run ends in `panic` for all large fuels or is stuck with every fuel.
+    The model's candidate bound `avail (sc 0) / 32 + 1` is never exhausted (`gk_loop`: invariant
+    `avail (sc p) < 32 · fuel`), so the fuel-exhaustion `.err` of `genKeyLoop` does not occur: no disagreement. -/
+theorem ir_generateKey_eq_model_len32 (X : Model.SM2.Ctx α β) (enc : α → List Nat) (Fsbm Fbytes : Nat)
+    (hG : G 5 = bytesV (Model.SM2.nMinus1Bytes X)) (r : Int) (hr : r ≠ 0) (sc : Nat → Script)
+    (H1 : ∀ k : Bytes, k.length = 32 →
+      match Model.SM2.scalarBaseMult X k with
+      | .ok r => Computes prog G O 87 Fsbm [bytesV k] [ptV enc r, .int 0]
+      | .err => Computes prog G O 87 Fsbm [bytesV k] [nilPointV, .int 1]
+      | .panic => CalleeFails prog G O 87 [bytesV k])
+    (H2 : ∀ p, Computes prog G O 91 Fbytes [ptV enc p] [bytesV (Model.Point.bytes X.C p true)])
+    (H4 : ∀ p : Nat,
+      match readFull (sc p) 32 [] with
+      | (some b, rest) =>
+          O 11 [.int r, .int 32, .int (p : Int)] = [bytesV b, .int 32, .int 0, .int ((p + 1 : Nat) : Int)] ∧
+            sc (p + 1) = rest
+      | (none, rest) =>
+          ∃ buf n e, O 11 [.int r, .int 32, .int (p : Int)] = [buf, .int n, .int e, .int ((p + 1 : Nat) : Int)] ∧
+            e ≠ 0 ∧ sc (p + 1) = rest) :
+    match Model.SM2.generateKey X (some (sc 0)) with
+    | .ok ((priv, x, y), _) => ∀ f, fuelGen (avail (sc 0) / 32 + 1) Fsbm Fbytes ≤ f →
+        runV prog G O f f_sm2_GenerateKey [.int r] = .ret [bytesV priv, bytesV x, bytesV y, .int 0]
+    | .err => ∃ v, ∀ f, fuelGen (avail (sc 0) / 32 + 1) Fsbm Fbytes ≤ f →
+        runV prog G O f f_sm2_GenerateKey [.int r] = .ret [v, .arr [], .arr [], .int 1]
+    | .panic =>
+        (∃ F, ∀ f, F ≤ f → runV prog G O f f_sm2_GenerateKey [.int r] = .panic) ∨
+        (∀ f, runV prog G O f f_sm2_GenerateKey [.int r] = .stuck) := by
+  obtain ⟨a, b, c⟩ := gen_body (P := prog) (G := G) (O := O) (X := X) (enc := enc) (Fsbm := Fsbm) (Fbytes := Fbytes)
+    fn0_lookup fn1_lookup hG hr (sc := sc) H4 H1 H2
+  cases h : Model.SM2.generateKey X (some (sc 0)) with
+  | ok res =>
+    obtain ⟨⟨priv, x, y⟩, n⟩ := res
+    obtain ⟨env', he⟩ := a priv x y n h
+    exact runV_of_EvIn fn97_lookup rfl rfl he
+  | err =>
+    obtain ⟨env', v, he⟩ := b h
+    exact ⟨v, runV_of_EvIn fn97_lookup rfl rfl he⟩
+  | panic => exact runV_of_Fails fn97_lookup rfl rfl (c h)
+
+/-- `ir_generateKey_eq_model_len32` with the ScalarBaseMult contract for every scalar `k` -/
+theorem ir_generateKey_eq_model (X : Model.SM2.Ctx α β) (enc : α → List Nat) (Fsbm Fbytes : Nat)
+    (hG : G 5 = bytesV (Model.SM2.nMinus1Bytes X)) (r : Int) (hr : r ≠ 0) (sc : Nat → Script)
+    (H1 : ∀ k : Bytes,
+      match Model.SM2.scalarBaseMult X k with
+      | .ok r => Computes prog G O 87 Fsbm [bytesV k] [ptV enc r, .int 0]
+      | .err => Computes prog G O 87 Fsbm [bytesV k] [nilPointV, .int 1]
+      | .panic => CalleeFails prog G O 87 [bytesV k])
+    (H2 : ∀ p, Computes prog G O 91 Fbytes [ptV enc p] [bytesV (Model.Point.bytes X.C p true)])
+    (H4 : ∀ p : Nat,
+      match readFull (sc p) 32 [] with
+      | (some b, rest) =>
+          O 11 [.int r, .int 32, .int (p : Int)] = [bytesV b, .int 32, .int 0, .int ((p + 1 : Nat) : Int)] ∧
+            sc (p + 1) = rest
+      | (none, rest) =>
+          ∃ buf n e, O 11 [.int r, .int 32, .int (p : Int)] = [buf, .int n, .int e, .int ((p + 1 : Nat) : Int)] ∧
+            e ≠ 0 ∧ sc (p + 1) = rest) :
+    match Model.SM2.generateKey X (some (sc 0)) with
+    | .ok ((priv, x, y), _) => ∀ f, fuelGen (avail (sc 0) / 32 + 1) Fsbm Fbytes ≤ f →
+        runV prog G O f f_sm2_GenerateKey [.int r] = .ret [bytesV priv, bytesV x, bytesV y, .int 0]
+    | .err => ∃ v, ∀ f, fuelGen (avail (sc 0) / 32 + 1) Fsbm Fbytes ≤ f →
+        runV prog G O f f_sm2_GenerateKey [.int r] = .ret [v, .arr [], .arr [], .int 1]
+    | .panic =>
+        (∃ F, ∀ f, F ≤ f → runV prog G O f f_sm2_GenerateKey [.int r] = .panic) ∨
+        (∀ f, runV prog G O f f_sm2_GenerateKey [.int r] = .stuck) :=
+  ir_generateKey_eq_model_len32 X enc Fsbm Fbytes hG r hr sc (fun k _ => H1 k) H2 H4
+
+/-- `sm2.GenerateKey(nil)`: the model says `.err`, the IR returns `[nil, nil, nil, err]`; no hypothesis at all -/
+theorem ir_generateKey_nil (X : Model.SM2.Ctx α β) :
+    Model.SM2.generateKey X none = .err ∧
+    ∀ f, 20 ≤ f → runV prog G O f f_sm2_GenerateKey [.int 0] = .ret [.arr [], .arr [], .arr [], .int 1] := by
+  obtain ⟨env', he⟩ := gen_body_nil (P := prog) (G := G) (O := O)
+  exact ⟨rfl, runV_of_EvIn fn97_lookup rfl rfl he⟩
+
+/-- the generated global 5 is the `nMinus1Bytes` of every context whose group order is the SM2 order -/
+theorem globals_nMinus1_ctx (X : Model.SM2.Ctx α β) (hn : X.n = SMGo.Gen.SM2Params.param_N) :
+    globals 5 = bytesV (Model.SM2.nMinus1Bytes X) := by
+  rw [globals_nMinus1, Model.SM2.nMinus1Bytes, hn]
+
+/-- GenerateKey against the concrete scripted oracle `readerOracle base s` (any `base` for the other externals):
+    the reader hypothesis is discharged by `readerOracle_spec` -/
+theorem ir_generateKey_eq_model_script (X : Model.SM2.Ctx α β) (enc : α → List Nat) (Fsbm Fbytes : Nat)
+    (base : Oracle) (s : Script)
+    (hG : G 5 = bytesV (Model.SM2.nMinus1Bytes X)) (r : Int) (hr : r ≠ 0)
+    (H1 : ∀ k : Bytes,
+      match Model.SM2.scalarBaseMult X k with
+      | .ok r => Computes prog G (readerOracle base s) 87 Fsbm [bytesV k] [ptV enc r, .int 0]
+      | .err => Computes prog G (readerOracle base s) 87 Fsbm [bytesV k] [nilPointV, .int 1]
+      | .panic => CalleeFails prog G (readerOracle base s) 87 [bytesV k])
+    (H2 : ∀ p, Computes prog G (readerOracle base s) 91 Fbytes [ptV enc p] [bytesV (Model.Point.bytes X.C p true)]) :
+    match Model.SM2.generateKey X (some s) with
+    | .ok ((priv, x, y), _) => ∀ f, fuelGen (avail s / 32 + 1) Fsbm Fbytes ≤ f →
+        runV prog G (readerOracle base s) f f_sm2_GenerateKey [.int r] = .ret [bytesV priv, bytesV x, bytesV y, .int 0]
+    | .err => ∃ v, ∀ f, fuelGen (avail s / 32 + 1) Fsbm Fbytes ≤ f →
+        runV prog G (readerOracle base s) f f_sm2_GenerateKey [.int r] = .ret [v, .arr [], .arr [], .int 1]
+    | .panic =>
+        (∃ F, ∀ f, F ≤ f → runV prog G (readerOracle base s) f f_sm2_GenerateKey [.int r] = .panic) ∨
+        (∀ f, runV prog G (readerOracle base s) f f_sm2_GenerateKey [.int r] = .stuck) :=
+  ir_generateKey_eq_model X enc Fsbm Fbytes hG r hr (scriptAt s) H1 H2 (readerOracle_spec base s (.int r))
+
+end Run
+
 end SMGo.Proofs.CTIRRefineKeys
+
+#print axioms SMGo.Proofs.CTIRRefineKeys.ir_derivePublic_eq_model
+#print axioms SMGo.Proofs.CTIRRefineKeys.ir_generateKey_eq_model
+#print axioms SMGo.Proofs.CTIRRefineKeys.ir_generateKey_eq_model_len32
+#print axioms SMGo.Proofs.CTIRRefineKeys.ir_generateKey_nil
+#print axioms SMGo.Proofs.CTIRRefineKeys.ir_generateKey_eq_model_script
+#print axioms SMGo.Proofs.CTIRRefineKeys.readerOracle_spec
+#print axioms SMGo.Proofs.CTIRRefineKeys.derive_body
+#print axioms SMGo.Proofs.CTIRRefineKeys.gen_body
